@@ -18,7 +18,9 @@ Property oracle (independent of the mirror): one plain Python dict per slot, sta
 literal; every observation must equal the dict's; the updates of each emitted entry, applied in order to the on-chain
 contents of its source, must give exactly the final dict of the stored slot; every update must carry base58
 `expr`(Blake2b-256(0x05 ‖ legacy-packed key)) recomputed here with hashlib and a local Micheline forger (the packed
-bytes of every key are also compared, with this forger and with the mirror `Impl.BigMap.packLegacy`); no key twice;
+bytes of every key are also compared, with this forger and with the mirror `Impl.BigMap.packLegacy`; the Lean driver
+computes the `expr…` text itself — `Impl.BigMap.keyHashChars` with the executable Lean BLAKE2b-256 / SHA-256 — for every
+update of every diff and for every packed key, and these are diffed against pytezos' `key_hash` values); no key twice;
 pytezos' own reading of the emitted diff (`merge_lazy_diff`) must show the same updates."""
 import functools
 import hashlib
@@ -363,9 +365,10 @@ def run_impl(case):
 
 
 def _show_updates(ups):
-    valued = [f'{k}={v}' for k, v, _ in ups if v is not None]
-    removed = sorted(k for k, v, _ in ups if v is None)            # set-derived order: canonicalised
-    return ' '.join(valued + [f'{k}=-' for k in removed])
+    """every update with the `key_hash` the emitted entry carries for it (the Lean driver computes that text itself)"""
+    valued = [f'{k}={v}@{h}' for k, v, h in ups if v is not None]
+    removed = sorted((k, h) for k, v, h in ups if v is None)       # set-derived order: canonicalised
+    return ' '.join(valued + [f'{k}=-@{h}' for k, h in removed])
 
 
 def impl_line(res):
@@ -705,6 +708,7 @@ def regressions():
 
 
 def check_packs(ctx, packs, model):
+    from pytezos.michelson.forge import forge_script_expr
     from pytezos.michelson.types.base import MichelsonType
     cls = {}
     reported = 0
@@ -712,9 +716,11 @@ def check_packs(ctx, packs, model):
         if t not in cls:
             cls[t] = MichelsonType.match(G.ty_expr(t))
         try:
-            got = cls[t].from_micheline_value(G.to_micheline(k)).pack(legacy=True).hex()
+            packed = cls[t].from_micheline_value(G.to_micheline(k)).pack(legacy=True)
+            got = packed.hex()
+            got_hash = forge_script_expr(packed)
         except Exception as ex:      # noqa: BLE001
-            got = f'raise {type(ex).__name__}'
+            got = got_hash = f'raise {type(ex).__name__}'
         ctx.case({'pack': G.ty_text(t), 'key': G.to_text(k)}, nontrivial=not isinstance(t, str))
         ctx.count('pack_key_type', t if isinstance(t, str) else t[0])
         want = (b'\x05' + forge_key(k)).hex()
@@ -723,8 +729,14 @@ def check_packs(ctx, packs, model):
             ctx.violation(f'key_pack: {G.ty_text(t)} {G.to_text(k)}'[:300],
                           f'pack(legacy=True) of the key is {got}, the legacy form (nested Pair, optimized leaves) is {want}',
                           {'key_type': G.ty_text(t), 'key': G.to_text(k), 'observed': got, 'expected': want})
-        if model is not None and model[i] != got:
-            ctx.mismatch('pack', {'key_type': G.ty_text(t), 'key': G.to_text(k)}, got, model[i])
+        if got_hash != expr_hash(k) and reported < 10:
+            reported += 1
+            ctx.violation(f'key_hash: {G.ty_text(t)} {G.to_text(k)}'[:300],
+                          f'forge_script_expr(pack(legacy=True)) of the key is {got_hash}, the script-expression hash of the legacy form is {expr_hash(k)}',
+                          {'key_type': G.ty_text(t), 'key': G.to_text(k), 'observed': got_hash, 'expected': expr_hash(k)})
+        # the model prints the packed bytes AND the `expr…` text (Lean BLAKE2b-256 + Base58Check with the Lean SHA-256)
+        if model is not None and model[i] != f'{got} {got_hash}':
+            ctx.mismatch('pack+key_hash', {'key_type': G.ty_text(t), 'key': G.to_text(k)}, f'{got} {got_hash}', model[i])
 
 
 def run(ctx):
@@ -753,7 +765,10 @@ def run(ctx):
         "a `copy` entry does not name its source in the emitted JSON (`pass  # TODO` in aggregate_lazy_diff); the oracle applies it to the on-chain contents of the map the parameter named; "
         'every entry is applied to the ORIGINAL on-chain contents of its source (also when the same id is copied and updated in one run)',
         'two descendants (DUP) of the same on-chain id are never both stored (both would emit `update` for one id; outside the property)',
-        'Blake2b / SHA-256 are hashlib (abstract function in the Lean theorems); the legacy PACK of a key is recomputed by a local Micheline forger',
+        'Blake2b-256 / SHA-256: abstract hash in the general theorems; the driver and the `…_concrete` corollaries use the executable Lean '
+        'implementations (the model prints the `expr…` key hash of every update of every emitted diff and of every packed key; tied to '
+        'hashlib by these comparisons and to the expr hashes of test_micheline.py by kernel-evaluated examples; only the digest length is '
+        'proved); the oracle recomputes legacy PACK and hash with hashlib and a local Micheline forger',
     ]
     cases = regressions()
     n_random = 1800 if quick else 6000
